@@ -101,6 +101,9 @@ func (p *Program) dropCandidate(key string) {
 	if p.houdiniDropped == nil {
 		p.houdiniDropped = map[string]bool{}
 	}
+	if os.Getenv("LIMEVC_NOTES") != "" && !p.houdiniDropped[key] {
+		fmt.Printf("NOTE houdini: dropped %s\n", key)
+	}
 	p.houdiniDropped[key] = true
 }
 
@@ -121,6 +124,9 @@ func verifyWithInference(prog *Program, fn *ssa.Function, fs *FuncSpec, rc *runC
 		changed := x.houdiniRetry
 		if len(soft) > 0 {
 			dir := filepath.Join(rc.outDir, "smt", "houdini")
+			if os.Getenv("LIMEVC_NOTES") != "" {
+				dir = filepath.Join(rc.outDir, "smt", fmt.Sprintf("houdini-%s-%d", sanitize(prog.relName(fn)), round))
+			}
 			os.RemoveAll(dir)
 			t := rc.timeout
 			if t > 10 {
@@ -128,6 +134,9 @@ func verifyWithInference(prog *Program, fn *ssa.Function, fs *FuncSpec, rc *runC
 			}
 			solveAll(soft, dir, t, rc.seed, false, rc.workers)
 			for _, o := range soft {
+				if os.Getenv("LIMEVC_NOTES") != "" && (o.Res == nil || o.Res.Status != "unsat") {
+					fmt.Printf("NOTE houdini: %s %s (%s)\n", o.Res.Status, o.Name, o.Trace)
+				}
 				if o.Res == nil || o.Res.Status != "unsat" {
 					if !prog.houdiniDropped[o.Detail] {
 						prog.dropCandidate(o.Detail)
